@@ -402,3 +402,37 @@ Proof.
     rewrite E0. reflexivity.
   - apply select_valid_pairs_at.
 Qed.
+
+(* ------------------------------------------------------------------ *)
+(** * selected pairs are consulted by the level model *)
+(* a pair of a matching between the added and the removed hashes IS consulted by the level model: [partner] (the model of
+   get_other_pair) answers it as long as the removed hash is still unused - the clause "a pair the code could not have used is
+   treated as absent" of DiffIOModel.v never applies to it *)
+Lemma partner_of_matching (H : pystr -> pystr) c rep xs ys p1 (hp : list (pystr * pystr)) :
+  NoDup (map fst hp) ->
+  (forall a r, In (a, r) hp -> In a (hashes_added H c rep xs ys) /\ In r (hashes_removed H c rep xs ys)) ->
+  forall pairs a r remaining, pairs p1 = idx_pairs (h1 H c rep xs) (h2 H c rep ys) hp -> In (a, r) hp -> In r remaining ->
+  partner H c rep pairs xs ys p1 a remaining = Some r.
+Proof.
+  intros Nk Hin pairs a r remaining Hp Har Hrem. unfold partner. rewrite Hp. clear Hp.
+  assert (Ha : forall a, In a (hashes_added H c rep xs ys) -> In a (h2 H c rep ys)).
+  { intros a0 X. unfold hashes_added in X. apply filter_In in X as [X _]. unfold t2_hashes in X. apply (proj1 (dedup_In _ _)) in X. exact X. }
+  assert (Hr : forall r, In r (hashes_removed H c rep xs ys) -> In r (h1 H c rep xs)).
+  { intros r0 X. unfold hashes_removed in X. apply filter_In in X as [X _]. unfold t1_hashes in X. apply (proj1 (dedup_In _ _)) in X. exact X. }
+  assert (F : find (fun ji : nat * nat => pystr_eqb (nth (fst ji) (h2 H c rep ys) []) a) (idx_pairs (h1 H c rep xs) (h2 H c rep ys) hp) =
+              Some (first_of (indexes_of a (h2 H c rep ys) 0), first_of (indexes_of r (h1 H c rep xs) 0))).
+  { unfold idx_pairs. induction hp as [|[a0 r0] l IH]; [destruct Har|]. cbn [map find fst snd].
+    assert (E0 : nth (first_of (indexes_of a0 (h2 H c rep ys) 0)) (h2 H c rep ys) [] = a0).
+    { apply first_index. apply Ha. apply (Hin a0 r0). left. reflexivity. }
+    rewrite E0. cbn [map fst] in Nk. inversion Nk as [|z zs Hz Hzs]; subst.
+    destruct (pystr_eqb a0 a) eqn:E.
+    - apply pystr_eqb_eq in E. subst a0. destruct Har as [X|X]; [inversion X; subst; reflexivity|].
+      exfalso. apply Hz. apply in_map_iff. exists (a, r). auto.
+    - destruct Har as [X|X]; [inversion X; subst; rewrite pystr_eqb_refl in E; discriminate|].
+      apply IH; [exact Hzs| |exact X]. intros a' r' Y. apply Hin. right. exact Y. }
+  rewrite F. cbn [fst snd].
+  destruct (first_index r (h1 H c rep xs) (Hr r (proj2 (Hin a r Har)))) as [Hlt Hn].
+  assert (E1 : nth_error (h1 H c rep xs) (first_of (indexes_of r (h1 H c rep xs) 0)) = Some r).
+  { rewrite <- Hn at 2. apply nth_error_nth'. exact Hlt. }
+  rewrite E1. apply (proj2 (mem_h_In _ _)) in Hrem. rewrite Hrem. reflexivity.
+Qed.
